@@ -146,6 +146,28 @@ func (harness) Run(cfg xplore.Config, ch vrt.Chooser, trace bool) (xplore.Outcom
 		if ad-dl != lc {
 			viol("leafcount-vs-add-del", "targetLeaves=%d, added-deleted=%d", lc, ad-dl)
 		}
+		// what subscribers see: after one more refresh (everything has stopped) the
+		// EXPORTED meta/ leaves carry exactly the counters the cache holds - whatever
+		// landed while an earlier refresh was exporting
+		c.UpdateMetadata()
+		for _, name := range []string{metadata.LeafCount, metadata.AddCount, metadata.DelCount, metadata.UpdateCount, metadata.StaleCount, metadata.EmptyCount, metadata.SuppressedCount, metadata.FutureCount} {
+			want, err := md.GetInt(name)
+			if err != nil {
+				continue
+			}
+			got, found := int64(0), false
+			c.Query("t", metadata.Path(name), func(_ []string, _ *ctree.Leaf, v interface{}) error {
+				if nn, ok := v.(*pb.Notification); ok && len(nn.Update) == 1 {
+					if iv, ok := nn.Update[0].GetVal().GetValue().(*pb.TypedValue_IntVal); ok {
+						got, found = iv.IntVal, true
+					}
+				}
+				return nil
+			})
+			if !found || got != want {
+				viol("exported-counter-stale", "after a final refresh the exported leaf %s = %d (present=%v) but the cache's counter is %d", strings.Join(metadata.Path(name), "/"), got, found, want)
+			}
+		}
 		out.Obs = fmt.Sprintf("leaves=%d", n)
 		out.Nontrivial = true
 	})
